@@ -58,7 +58,11 @@ def loop_skeleton(fn_node):
             if isinstance(ch, (ast.FunctionDef, ast.AsyncFunctionDef)):
                 walk(ch, 0, path + '/' + ch.name)
             elif isinstance(ch, (ast.While, ast.For, ast.AsyncFor)):
-                out.append(f'{path}:{depth}:{type(ch).__name__}' + ('+else' if ch.orelse else ''))
+                # the variables the loop body assigns (its loop-carried state): an invariant is written about exactly these,
+                # so a loop that carries other variables is another loop (benign/C07-b3: Name.decode counting up to `end`
+                # instead of counting `length` down failed the invariant about `length`)
+                carried = sorted({x.id for b in ch.body for x in ast.walk(b) if isinstance(x, ast.Name) and isinstance(x.ctx, ast.Store)})
+                out.append(f'{path}:{depth}:{type(ch).__name__}' + ('+else' if ch.orelse else '') + '[' + ','.join(carried) + ']')
                 walk(ch, depth + 1, path)
             elif isinstance(ch, (ast.Yield, ast.YieldFrom)):
                 out.append(f'{path}:{depth}:yield')
